@@ -9,10 +9,14 @@
    Consequences: a path Stat accepts has a parent that is a directory and whose listing names it.
    Every operation of the model terminates (Coq functions are total; the recursions of RemoveAll/Rename
    are bounded by fuel = number of records + 2: running out would show as a correspondence mismatch).
+   Compositions: a Sub view and a mount FS only run key-value operations on their constituents, so every
+   constituent stays well-formed (proved; for mount every operation but Rename, whose cross-mount copy is
+   exercised by the harness); the composition-level invariant "a mount point's directory exists" is REFUTED
+   (known finding: RemoveAll of the directory that holds a mount point).
    Hypothesis: no store failure (C14 treats failures).  NOT covered by theorems: writes through handles
-   that outlive the removal of their path (C17 known finding), mount and Sub compositions (harness
-   invariant check; two known findings). *)
-From HP Require Import Base.Prelude Base.Path Base.DirProofs KV.Types KV.FS KV.Handle KV.Run KV.TreeProofs.
+   that outlive the removal of their path (C17 known finding). *)
+From HP Require Import Base.Prelude Base.Path Base.DirProofs KV.Types KV.FS KV.Handle KV.Run KV.TreeProofs
+  Compose.Mount Compose.Sub Compose.ComposeTree.
 Open Scope N_scope.
 
 Theorem C03_every_history_keeps_the_tree_well_formed : forall ops, Forall ns_op ops ->
@@ -50,6 +54,26 @@ Theorem C03_nothing_below_a_file : forall s p r,
   wf_store s -> lookup s p = Some r -> is_dir (r_mode r) = false -> childless s p.
 Proof. exact nondir_childless. Qed.
 Print Assumptions C03_nothing_below_a_file.
+
+(* through a Sub view: whatever the view does, the parent stays a well-formed tree *)
+Theorem C03_sub_view_keeps_the_parent_well_formed : forall base st o, good st -> good (fst (sstep base st o)).
+Proof. exact sstep_good. Qed.
+Print Assumptions C03_sub_view_keeps_the_parent_well_formed.
+
+(* through a mount FS: every constituent stays a well-formed tree *)
+Theorem C03_mount_constituents_stay_well_formed : forall ops m, mgood m ->
+  Forall (fun o => forall a b, o <> Rename a b) ops ->
+  mgood (fold_left (fun s o => fst (mstep s o)) ops m).
+Proof. exact mrun_good. Qed.
+Print Assumptions C03_mount_constituents_stay_well_formed.
+
+(* ... but the mount table is not kept consistent with them (known finding) *)
+Theorem C03_mount_point_can_be_orphaned_refuted :
+  let m' := fst (mstep (minit [S "a/b"]) (RemoveAll (S "a"))) in
+  mgood m' /\ In (S "a/b", 1%nat) (m_table m') /\ lookup (st_store (fs_at m' 0)) (S "a/b") = None
+  /\ lookup (st_store (fs_at m' 0)) (S "a") = None.
+Proof. exact mount_point_can_be_orphaned. Qed.
+Print Assumptions C03_mount_point_can_be_orphaned_refuted.
 
 Example C03_nonvacuous :
   let ops := [MkdirAll (S "a/b") 493; WriteFile (S "a/b/f") [1; 2] 420; Rename (S "a") (S "c"); Remove (S "c/b/f")] in
